@@ -741,7 +741,40 @@ def r4_skel_only(P, rep, ctx):
               "C15.R4", fi.qual, "meta[...] reads through the guarded get()", fi.loc(), construct="MetadorMeta.__getitem__", message="MetadorMeta.__getitem__ reads stored objects without going through the guarded get()")
     fi = P.func(f"{I}.MetadorMeta.query")
     g = ctx.cfg(fi)
-    ys = [n.idx for n in g.nodes if n.kind in ("stmt", "for") and any(isinstance(x, ast.Attribute) and x.attr == "_objs" for e in n.exprs if e is not None for x in walk_local(e))]
+    # the table of stored objects may be consulted for existence / names / schema refs; the stored records themselves
+    # (and through them the content) only come from the guarded accessors
+    parents = {}
+    for p_ in ast.walk(fi.node):
+        for ch in ast.iter_child_nodes(p_):
+            parents[id(ch)] = p_
+
+    def harmless(x: ast.AST) -> bool:
+        """use of `self._objs` that cannot hand out a stored record"""
+        up = parents.get(id(x))
+        if isinstance(up, (ast.UnaryOp, ast.BoolOp, ast.If, ast.While, ast.IfExp, ast.Compare)):
+            return True  # truth / membership test
+        if isinstance(up, ast.Call) and x in up.args and norm(up.func) in ("len", "bool"):
+            return True
+        if isinstance(up, ast.Attribute) and isinstance(parents.get(id(up)), ast.Call) and parents[id(up)].func is up:
+            call = parents[id(up)]
+            if up.attr == "keys":
+                return True
+            if up.attr in ("get", "values", "items") or up.attr == "__getitem__":
+                # every use of the elements goes through `.schema`
+                owner = parents.get(id(call))
+                if isinstance(owner, ast.Attribute) and owner.attr == "schema":
+                    return True
+                if isinstance(owner, ast.comprehension) and owner.iter is call and isinstance(owner.target, ast.Name) and up.attr == "values":
+                    comp = parents.get(id(owner))
+                    v_ = owner.target.id
+                    uses = [y for y in ast.walk(comp) if isinstance(y, ast.Name) and y.id == v_ and isinstance(y.ctx, ast.Load)]
+                    return bool(uses) and all(isinstance(parents.get(id(y)), ast.Attribute) and parents[id(y)].attr == "schema" for y in uses)
+        if isinstance(up, ast.Subscript) and up.value is x:
+            owner = parents.get(id(up))
+            return isinstance(owner, ast.Attribute) and owner.attr == "schema"
+        return False
+
+    ys = [n.idx for n in g.nodes if n.kind in ("stmt", "for", "test") and any(isinstance(x, ast.Attribute) and x.attr == "_objs" and not harmless(x) for e in n.exprs if e is not None for x in walk_local(e))]
     rep.check(not ys, "C15.R4", fi.qual, "query lists objects through the guarded values()/keys()/_get_raw only", fi.loc(), construct="_objs access in query",
               message="MetadorMeta.query reads self._objs directly (bypasses the skel_only guard of values())")
 
